@@ -407,7 +407,7 @@ def classify_c06(rec):
             return "oracle-sqlite-right-join-pushdown"
         # take, sort, (select / derive lines), take, then a group / aggregate: ONE limit in the SQL where the two takes under different
         # sorts need two
-        if re.search(r"(?m)^take [^\n]*\nsort [^\n]*\n(?:(?:select|derive) [^\n]*\n)*take [^\n]*\n(?:group|aggregate)", prql) and len(re.findall(r"\bLIMIT\b", sql)) <= 1:
+        if re.search(r"(?m)^take [^\n]*\nsort [^\n]*\n(?:(?:select|derive) [^\n]*\n)*take [^\n]*\n(?:(?:select|derive) [^\n]*\n)*(?:group|aggregate)", prql) and len(re.findall(r"\bLIMIT\b", sql)) <= 1:
             return "F37-takes-merged-across-sort-before-group"
         # an OVER clause lost its ORDER BY relative to the base program's SQL (the same window has one there)
         # ... and no LIMIT lost its ORDER BY (that would be a different defect: a positional take over an unordered SELECT)
